@@ -118,14 +118,6 @@ Proof.
   - intros i Hi. unfold f2_theta. apply frac_lt; [rewrite S_INR; lra|lra].
 Qed.
 
-(* Gauss-Chebyshev (first kind): the constructor's nodes are the Fejer-1 nodes (reversal flag from the source) *)
-Lemma gc_pts_eq n k : pts_GaussChebyshev n k = pts_FejerFirst n k.
-Proof. reflexivity. Qed.
-
-Lemma gc_shape n k : (1 <= n)%nat -> (k < n)%nat ->
-  -1 <= pts_GaussChebyshev n k <= 1 /\ ((S k < n)%nat -> pts_GaussChebyshev n k < pts_GaussChebyshev n (S k)).
-Proof. rewrite !gc_pts_eq. apply f1_shape. Qed.
-
 (* ---------------------------------------------------------------- documented closed forms *)
 Lemma sqrt_1_cos2 t : 0 <= t <= PI -> sqrt (1 - cos t ^ 2) = sin t.
 Proof.
